@@ -191,6 +191,41 @@ type cfgEpoch struct {
 	dryRun                              bool
 }
 
+// hookStress is the StressReliever double of World A. The collector calls
+// UpdateFromConfig in the middle of its reload callback: that call is the seam
+// for "a worker makes a decision while a reload is half done".
+type hookStress struct {
+	*collect.MockStressReliever
+	mu     sync.Mutex
+	gate   chan struct{}
+	parked chan struct{}
+}
+
+func (h *hookStress) UpdateFromConfig() {
+	h.MockStressReliever.UpdateFromConfig()
+	h.mu.Lock()
+	gate, parked := h.gate, h.parked
+	h.gate, h.parked = nil, nil
+	h.mu.Unlock()
+	if gate != nil {
+		close(parked)
+		<-gate
+	}
+}
+
+func (h *hookStress) arm() (release, parked chan struct{}) {
+	h.mu.Lock()
+	defer h.mu.Unlock()
+	h.gate, h.parked = make(chan struct{}), make(chan struct{})
+	return h.gate, h.parked
+}
+
+func (h *hookStress) disarm() {
+	h.mu.Lock()
+	defer h.mu.Unlock()
+	h.gate, h.parked = nil, nil
+}
+
 // gatedPeers is the Peers double of World A: MockPeers whose GetPeers can be
 // made to stall, after it has taken its answer, when called from a goroutine
 // other than the driver's. That is the seam for "a peer-list lookup overtaken by
@@ -258,6 +293,7 @@ type worldA struct {
 	met   *metrics.MockMetrics
 	peers *peer.MockPeers
 	gpeers *gatedPeers
+	stress *hookStress
 	sf    *sample.SamplerFactory
 	hl    *health.Health
 	start time.Time
@@ -445,6 +481,7 @@ func newWorldA(p *Plan, out *Outcome, preStart func(w *worldA)) *worldA {
 	}
 	w.peers = peer.NewMockPeers(pl, pl[0])
 	w.gpeers = &gatedPeers{MockPeers: w.peers, driver: goid()}
+	w.stress = &hookStress{MockStressReliever: &collect.MockStressReliever{}}
 	w.sf = &sample.SamplerFactory{Config: simConfig{w.cfg}, Metrics: w.met, Logger: &logger.NullLogger{}, Peers: w.gpeers}
 	if err := w.sf.Start(); err != nil {
 		out.Harness = "sampler factory: " + err.Error()
@@ -455,7 +492,7 @@ func newWorldA(p *Plan, out *Outcome, preStart func(w *worldA)) *worldA {
 	w.coll = &collect.InMemCollector{
 		Config: simConfig{w.cfg}, Clock: w.clk, Logger: &logger.NullLogger{}, Tracer: &aTracer{SimTracer: w.tr, w: w},
 		Health: w.hl, Transmission: w.tx, PeerTransmission: &recTx{w: w}, PubSub: lp, Metrics: w.met,
-		StressRelief: &collect.MockStressReliever{}, SamplerFactory: w.sf, Peers: w.gpeers,
+		StressRelief: w.stress, SamplerFactory: w.sf, Peers: w.gpeers,
 		Sharder: &sharder.MockSharder{Self: &sharder.TestShard{Addr: "self"}},
 	}
 	collect.SimHeapAlloc = func(i *collect.InMemCollector, real uint64) uint64 {
@@ -732,7 +769,23 @@ func (w *worldA) doReload(op Op) {
 	}
 	if w.reloadHook != nil && w.reloadHook(op) {
 		w.pushEpoch()
-		c.Reload()
+		if op.M == 1 {
+			// the collector's reload callback stalls half way; a worker decides a
+			// trace; the callback goes on
+			release, parked := w.stress.arm()
+			c.Reload()
+			w.drv.Settle()
+			select {
+			case <-parked:
+				w.midReloadDecision(op)
+				close(release)
+				w.drv.Settle()
+			default:
+				w.stress.disarm()
+			}
+		} else {
+			c.Reload()
+		}
 		w.out.Probe("reload_" + op.S)
 		return
 	}
@@ -827,6 +880,25 @@ func (w *worldA) schedule() time.Duration {
 		})
 	}
 	return us(last)
+}
+
+// midReloadDecision runs inside the collector's reload callback: a fresh trace
+// becomes due and its worker decides it before the callback has finished.
+func (w *worldA) midReloadDecision(op Op) {
+	w.doSpan(Op{ID: op.ID, K: "span", I: op.I, N: skRoot | op.J<<8, S: op.T})
+	w.drv.Settle()
+	tm := w.byIdx[int(op.I)]
+	tk := w.clk.Find(fmt.Sprintf("a/worker/%d", tm.worker))
+	if tk == nil {
+		return
+	}
+	time.Sleep(w.tracesCfgTimeout() + time.Millisecond)
+	select {
+	case tk.ch <- time.Now():
+	default:
+	}
+	w.drv.Settle()
+	w.out.Probe("decision_while_reload_half_done")
 }
 
 // peersRace: a lazy sampler creation on a worker looks the peer list up, is
